@@ -444,6 +444,10 @@ def gen_list_all(seed, big):
         "<%(tl)s skip to='2999-01-01 00:00:00'>\nx\n</%(tl)s>\n<%(rm)s name='f1'>\ny\n</%(rm)s>\n",
         "x\n<%(rm)s name='f1' unwrap-block>\nif a {\n  <%(rm)s name='p' skip>\n  k\n  </%(rm)s>\n  m\n}\n</%(rm)s>\nz\n",
         "<%(rm)s name='p'>\n<%(tl)s to='2999-01-01 00:00:00' skip>\na\n</%(tl)s>\n</%(rm)s>\n<other name='f1'>\nb\n</other>\n",
+        # a skip attribute that carries a value is a skip attribute all the same
+        "a\n<%(tl)s to='2001-01-01 00:00:00' skip=\"true\">\nb\n</%(tl)s>\nc\n",
+        "a\n<%(rm)s name='p' skip='yes'>\nb\n</%(rm)s>\n<%(rm)s name='f1'>\ny\n</%(rm)s>\n",
+        "<%(rm)s name='f1' skip=''>\nx\n<%(rm)s name='f1'>\ny\n</%(rm)s>\nz\n</%(rm)s>\n",
         # a ready unwrap-block that cannot be unwrapped appears in neither status, but pending elements inside it do
         "before\n<%(tl)s to='2001-01-01 00:00:00' unwrap-block>\n<%(rm)s name='p'> legacy(); </%(rm)s>\n</%(tl)s>\nafter\n",
         "x <%(tl)s to='2001-01-01 00:00:00' unwrap-block><%(rm)s name='p'>y</%(rm)s></%(tl)s> z\n",
@@ -451,7 +455,7 @@ def gen_list_all(seed, big):
         "start()\n<%(tl)s to='2999-12-31 23:59:59' unwrap-block>\nif (r) {\n  a()\n  <%(rm)s name='p'>\n  b()\n  </%(rm)s>\n  c()\n}\n</%(tl)s>\nend()\n",
         "<%(rm)s name='p' unwrap-block>\n{\n  <%(rm)s name='p'>\n  x\n  </%(rm)s>\n  m\n  <%(tl)s to='2999-01-01 00:00:00' unwrap-block>\n  {\n    y\n  }\n  </%(tl)s>\n}\n</%(rm)s>\n",
     ]
-    expect = [(2, 1), (0, 1), (1, 2), None, None, (0, 0), (0, 1), (0, 2), (1, 0), (1, 0), (1, 0), (3, 0), (5, 0)]
+    expect = [(2, 1), (0, 1), (1, 2), None, None, (0, 0), (0, 1), (0, 2), (1, 0), (0, 0), (0, 1), (0, 1), (1, 0), (1, 0), (3, 0), (5, 0)]
     for d, e in zip(docs, expect):
         src = d % {'rm': RM, 'tl': TL}
         out.append((dict(cfg(), mode='list_all_json', source=src, ds='<', de='>', _pair='list_json'), ('LIST_ALL', src, e)))
@@ -595,7 +599,8 @@ def gen_dedent_nested(seed, big):
             src.append(unit * ind + f"</{RM}>")
         def unwrap(ind, k, depth, src, exp):
             src.append(unit * ind + f"<{RM} name='f1' unwrap-block>")
-            src.append(unit * ind + 'if a {')
+            # the opening wrapper line may itself hold a ready default-strategy element (it goes with the wrapper line)
+            src.append(unit * ind + 'if a {' + (f" <{RM} name='f1'> legacy(); </{RM}>" if rnd.random() < 0.3 else ''))
             first = rnd.choice(['text', 'text', 'text', 'removed', 'nested', 'empty'])
             if first == 'empty':
                 # the first inner line is empty: its indentation is 0, the shift of THIS block is 0
@@ -610,6 +615,10 @@ def gen_dedent_nested(seed, big):
                 c = rnd.random()
                 if c < 0.35 and depth < 3:
                     unwrap(ind + 1, k + 1, depth + 1, src, exp)
+                    if rnd.random() < 0.5:
+                        # a line indented deeper than the nested block's tag, behind the nested block
+                        text(ind + 1, k + 1, src, exp)
+                        text(ind + 2, k + 1, src, exp)
                 elif c < 0.6:
                     removed(ind + 1, src)
                 text(ind + 1, k + 1, src, exp)
@@ -794,6 +803,71 @@ def gen_unwrap_four_lines(seed, big):
             return None
         out.append((dict(cfg(), mode='clean', source=src, ds='<', de='>'), oracle))
     return out
+
+
+def gen_unwrap_crlf_text(seed, big):
+    """C02/C03/C11 on CRLF text: a ready unwrap-block (documents of gen_dedent_crlf: 2-5 inner lines) loses its two tag
+    lines and two wrapper lines and nothing else - every other non-blank line is still there, trimmed, in order"""
+    out = []
+    for req, _ in gen_dedent_crlf(seed + 300, big):
+        src = req['source']
+        want = [l.strip() for l in src.split('\r\n') if l.strip() and 'unwrap-block' not in l and l.strip() not in ('if a {', '}', f'</{RM}>')]
+        def oracle(r, want=want, src=src):
+            if not r.get('ok'):
+                return 'clean panicked: ' + str(r.get('panic'))[:160]
+            got = [l.strip() for l in r['output'].split('\n') if l.strip()]
+            if got != want:
+                return f'CRLF unwrap-block: the non-blank lines of the output are {got}, expected the input minus tag and wrapper lines {want} (source {src!r})'
+            return None
+        out.append((req, oracle))
+    return out
+
+
+def gen_odd_whitespace_lines(seed, big):
+    """C02/C13: only spaces, tabs and line breaks are white space. A line made of other blank-looking characters
+    (U+3000, U+00A0, U+2003, form feed) next to a removed block is a surviving non-blank line: it stays, byte for byte."""
+    out = []
+    odd = ['\u3000', '\u00a0', '\u2003', '\x0c', '\u3000\u3000', ' \u3000', '\u00a0\t']
+    for S in odd:
+        for ind in ('', '  ', '\t'):
+            blk = [ind + f"<{RM} name='f1'>", ind + '  removed', ind + f"</{RM}>"]
+            docs = [(['foo', S] + blk + ['bar'], ['foo', S, 'bar']),
+                    (['foo'] + blk + [S, 'bar'], ['foo', S, 'bar']),
+                    (['foo', S] + blk + [S, 'bar'], ['foo', S, S, 'bar']),
+                    (['foo', S, ''] + blk + ['bar'], ['foo', S, 'bar']),
+                    ([f"<{RM} name='zz'>", S] + blk + [S, f"</{RM}>", 'bar'], [f"<{RM} name='zz'>", S, S, f"</{RM}>", 'bar'])]
+            for lines, want in docs:
+                src = '\n'.join(lines) + '\n'
+                def oracle(r, want=want, src=src):
+                    if not r.get('ok'):
+                        return 'clean panicked: ' + str(r.get('panic'))[:160]
+                    got = [l for l in r['output'].split('\n') if l.strip(' \t') != '']
+                    if got != want:
+                        return f'a line of non-space/tab blank characters is not white space and must survive intact: lines {got!r}, expected {want!r} (source {src!r})'
+                    return None
+                out.append((dict(cfg(), mode='clean', source=src, ds='<', de='>'), oracle))
+    return out
+
+
+def gen_identity_unexpired(seed, big):
+    """C04 at the expiry boundary: the documents of gen_expiry whose element is NOT yet expired (one second before `to`,
+    at offsets from -12:00 to +14:00 incl. negative half-hour ones) come back byte-identical"""
+    res = []
+    import datetime
+    base = datetime.datetime(2024, 2, 29, 23, 59, 59)
+    for (h, m) in [(-12, 0), (-9, 30), (-3, 30), (-0, 45), (0, 0), (5, 45), (14, 0)]:
+        for neg in ((True,) if (h == 0 and m == 45) else (h < 0,)):
+            sign = '-' if neg else '+'
+            for colon in (True, False):
+                o = f"{sign}{abs(h):02d}{':' if colon else ''}{m:02d}"
+                secs = (abs(h) * 3600 + m * 60) * (-1 if neg else 1)
+                to_utc = base - datetime.timedelta(seconds=secs)
+                for d in (-1, -60, -3599):
+                    cur = (to_utc + datetime.timedelta(seconds=d)).strftime('%Y-%m-%dT%H:%M:%S+00:00')
+                    src = f"<div>\n  <{TL} to='{base.strftime('%Y-%m-%d %H:%M:%S')}'>\n    <p>sale</p>\n  </{TL}>\n\n\n  <p>keep</p>\n</div>\n"
+                    res.append((dict(cfg(current=cur, offset=o), mode='clean', source=src, ds='<', de='>'),
+                                (lambda s_, dd, oo: lambda r: None if r.get('ok') and r.get('output') == s_ else f'nothing is ready {-dd}s before `to` at offset {oo}, yet the output differs from the input: ' + json.dumps(r, ensure_ascii=False)[:160])(src, d, o)))
+    return res
 
 
 def gen_blanklines(seed, big):
@@ -1072,9 +1146,9 @@ def _back_same(t, d):
 
 
 GENERATORS = {
-    'C01': [gen_totality], 'C04': [gen_identity, gen_identity_unwrappable, gen_identity_unrecognised], 'C07': [gen_partition], 'C08': [gen_recognition], 'C05': [gen_expiry], 'C06': [gen_marker],
-    'C09': [gen_grammar], 'C10': [gen_pairing], 'C02': [gen_blocks, gen_inline, gen_nested_text_survives], 'C03': [gen_blocks, gen_inline, gen_nested_text_survives], 'C11': [gen_blocks, gen_unwrap_wrappers, gen_unwrap_four_lines, gen_identity_unwrappable], 'C17': [gen_list_all],
-    'C12': [gen_dedent, gen_dedent_nested, gen_dedent_crlf], 'C13': [gen_blanklines, gen_lines_intact], 'C14': [gen_inline, gen_dedent_nested, gen_unwrap_lines_intact, gen_unwrap_lines_intact_crlf], 'C15': [gen_list_regions],
+    'C01': [gen_totality], 'C04': [gen_identity, gen_identity_unwrappable, gen_identity_unrecognised, gen_identity_unexpired], 'C07': [gen_partition], 'C08': [gen_recognition], 'C05': [gen_expiry], 'C06': [gen_marker],
+    'C09': [gen_grammar], 'C10': [gen_pairing], 'C02': [gen_blocks, gen_inline, gen_nested_text_survives, gen_unwrap_crlf_text, gen_odd_whitespace_lines], 'C03': [gen_blocks, gen_inline, gen_nested_text_survives, gen_unwrap_crlf_text], 'C11': [gen_blocks, gen_unwrap_wrappers, gen_unwrap_four_lines, gen_identity_unwrappable, gen_unwrap_crlf_text], 'C17': [gen_list_all],
+    'C12': [gen_dedent, gen_dedent_nested, gen_dedent_crlf], 'C13': [gen_blanklines, gen_lines_intact, gen_odd_whitespace_lines], 'C14': [gen_inline, gen_dedent_nested, gen_unwrap_lines_intact, gen_unwrap_lines_intact_crlf], 'C15': [gen_list_regions],
 }
 
 GENERATORS['C01'] = GENERATORS['C01'] + [gen_totality_everywhere]
